@@ -1,6 +1,6 @@
 """Property -> rules."""
 
-from . import rules_rta, rules_fp, rules_sib, rules_ros2, rules_total, controls
+from . import rules_rta, rules_fp, rules_sib, rules_ros2, rules_total, controls, rules_models, witness
 from .rta_model import ANALYSES
 
 FP = [p for p in ANALYSES if p.startswith('fixed_priority::')]
@@ -180,6 +180,9 @@ def c20(ctx, rep):
     l2, c2 = rules_total.check_term(rep, rel, 'rel')
     np_, nd = rules_total.check_profile(rep, dbg, rel)
     rules_total.check_debug_regions(rep, dbg)
+    # the SITE discharge of `delta - 1` at the length->offset conversions assumes items of steps_iter >= 1: decide that here too
+    rep.rule('STEP-NONZERO', 'no steps_iter yields 0 (cross-reference of the assumption used to discharge closed_from_time_zero call sites)')
+    rules_models.check_step_nonzero(rep, dbg)
     # positive / negative controls on the fixtures crate (same driver, same rules, empty vetted table)
     fd, fr = ctx.fixtures('dbg'), ctx.fixtures('rel')
     col = controls.Collector()
@@ -208,7 +211,181 @@ def c20(ctx, rep):
             'on debug-only code. Does NOT decide that the vetted invariants hold, nor floating-point behaviour.')
 
 
+MODEL_ASSUMPTIONS = COMMON_ASSUMPTIONS[:2] + [
+    'the reference summaries in spec/model_summaries.json were reviewed by hand against the definitions (ceil((delta+J)/T), '
+    'delta-min lookup with whole-prefix repetition, sliding-window extraction, k-way merge + dedup, ...); REF decides that the '
+    'model functions still compute those terms, not that the terms bound real event sequences',
+    'a REF mismatch can also be produced by an algorithmic rewrite that preserves behaviour but not the canonical term; renames, '
+    're-ordering of commutative operands, let-introduction, helper extraction/inlining and the crate\'s own conversion idioms do not',
+]
+
+
+def model_rules(rep):
+    rep.rule('REF', 'canonical summary (value term + one symbolic iteration of every loop, with path conditions) of each model '
+                    'function equals the reviewed reference')
+
+
+def witness_instances(rep, ctx, wanted, prop):
+    ok, res, tail = witness.run_witnesses(ctx.repo)
+    rep.rule('WIT', 'compile_fail doc-tests (expected error code checked on nightly) with compiling no_run twins')
+    found = 0
+    for name, verdict in sorted(res.items()):
+        if not any(name.startswith(w) for w in wanted):
+            continue
+        found += 1
+        key = f'WIT:{name.split("@")[0]}:{"twin" if False else name.split("@")[1]}'
+        if verdict == 'ok':
+            rep.ok('WIT', f'WIT:{name}', 'witness/src/lib.rs:' + name.split('@')[1], f'witness {name} behaves as required (compile_fail with the expected code / twin compiles)')
+        else:
+            rep.bad('WIT', f'WIT:{name.split("@")[0]}', 'witness/src/lib.rs:' + name.split('@')[1], f'witness {name}: {verdict}',
+                    'the offending program must not type-check, its twin must', direction='the type-level guarantee is gone',
+                    why='e.g. the shared cache became Send/Sync or publicly reachable')
+    rep.floor('compile-fail witnesses and twins', found, 2 * len(wanted))
+    if not res:
+        rep.infra_errors.append('witness crate did not build: ' + tail[-400:])
+
+
+def c10(ctx, rep):
+    crate = ctx.crate('dbg')
+    for a in MODEL_ASSUMPTIONS:
+        rep.assume(a)
+    model_rules(rep)
+    rep.rule('ZERO', 'every number_arrivals evaluates to 0 at delta = 0 (guard, ceil(0/T), literal, or delegation)')
+    rep.rule('JIT', 'clone_with_jitter: result jitter = existing + added (or fresh Propagated(self, added), or same added jitter to every component)')
+    rep.rule('JIT-WINDOW', 'jittered models count over the window delta + jitter')
+    rep.rule('DELEG', 'Vec<T>, [T], SumOf: number_arrivals is the sum over every component, same argument, no adaptor in between')
+    n = rules_models.check_ref(rep, crate, 'C10')
+    z = rules_models.check_zero(rep, crate)
+    j = rules_models.check_jitter(rep, crate)
+    d = rules_models.check_deleg(rep, crate, 'arrival')
+    rep.floor('reference summaries compared', n, 36)
+    rep.floor('number_arrivals implementations', z, 10)
+    rep.floor('clone_with_jitter implementations + window checks', j, 12)
+    rep.floor('composite number_arrivals', d, 3)
+    return ('Static analysis of the arrival models: every model function is summarised as a canonical term (closed forms) or a '
+            'one-iteration loop summary and compared with a reviewed reference; plus zero-at-zero, jitter additivity, '
+            'window widening and superposition clauses. Decides these structural clauses for all parameters; does NOT '
+            'decide that the counts bound real event sequences (numeric).')
+
+
+def c11(ctx, rep):
+    crate = ctx.crate('dbg')
+    for a in MODEL_ASSUMPTIONS:
+        rep.assume(a)
+    model_rules(rep)
+    rep.rule('STEP-NONZERO', 'no steps_iter yields 0 (literal zero source / derived lower bound of the items)')
+    rep.rule('STEP-SEAM', 'Sporadic/Propagated: the shifted tail keeps exactly the values >= 2, shift subtracts the jitter once')
+    rep.rule('STEP-DEDUP', 'composite steps_iter = dedup(kmerge/merge(component steps))')
+    rep.rule('STEP-CONV', 'demand::step_offsets maps every step delta to the offset delta - 1')
+    n = rules_models.check_ref(rep, crate, 'C11')
+    a = rules_models.check_step_nonzero(rep, crate)
+    b = rules_models.check_step_seams(rep, crate)
+    c = rules_models.check_step_dedup(rep, crate)
+    d = rules_models.check_step_conversion(rep, crate)
+    col = controls.Collector()
+    rules_models.check_step_nonzero(col, ctx.fixtures('dbg')) if False else None
+    rep.floor('reference summaries compared', n, 24)
+    rep.floor('steps_iter implementations', a, 13)
+    rep.floor('seams', b, 2)
+    rep.floor('composite steps_iter', c, 5)
+    return ('Static analysis of every steps_iter implementation (arrival and request bounds): canonical iterator terms are '
+            'compared with reviewed references; no zero item, exact seam guards, merge followed by dedup, and the '
+            'length-to-offset conversion are decided separately. Does NOT decide that the yielded values coincide with the '
+            'increase points of number_arrivals for given parameters (numeric).')
+
+
+def c12(ctx, rep):
+    crate = ctx.crate('dbg')
+    for a in MODEL_ASSUMPTIONS:
+        rep.assume(a)
+    model_rules(rep)
+    rep.rule('TRACE', 'arrival::Curve::from_trace: whole window scanned newest-first before the push; eviction iff len > prefix')
+    n = rules_models.check_ref(rep, crate, 'C12')
+    t = rules_models.check_trace(rep, crate, 'arrival::curve::Curve::from_trace', window_push_first=False)
+    rep.floor('reference summaries compared', n, 20)
+    rep.floor('trace extraction', t, 1)
+    return ('Static analysis of the curve-derivation code (from_trace, from_arrival_bound(_until), prefix conversions, '
+            'delta-min iterator): one-iteration loop summaries and value terms are compared with reviewed references '
+            '(cut-off predicates, the (n, delta-1) dual, prefix hand-over horizon+1 / njobs+1); the sliding-window shape is '
+            'decided separately. Does NOT decide domination beyond the prefix (super-additivity arithmetic).')
+
+
+def c13(ctx, rep):
+    crate = ctx.crate('dbg')
+    for a in MODEL_ASSUMPTIONS:
+        rep.assume(a)
+    model_rules(rep)
+    rep.rule('CACHE-SCOPE', 'no call that may (transitively) borrow a RefCell inside the scope of a guard of the cache')
+    rep.rule('CACHE-ESCAPE', 'no guard is returned, stored in a struct, or captured by a closure')
+    rep.rule('CACHE-APPEND', 'who-may-write: min_distance is only extended by push, only in the extrapolation routines')
+    rep.rule('CACHE-ORDER', 'number_arrivals extends the cache to query + k, k >= 1, before the lookup')
+    n = rules_models.check_ref(rep, crate, 'C13')
+    c = rules_models.check_cache(rep, crate, 'src/arrival/curve.rs', 'C13')
+    a = rules_models.check_append_only(rep, crate, 'min_distance', 'src/arrival/curve.rs', {'extrapolate', 'extrapolate_steps', 'extrapolate_with_bound'})
+    o = rules_models.check_extrapolate_before_lookup(rep, crate, '<arrival::curve::ExtrapolatingCurve as arrival::ArrivalBound>::number_arrivals',
+                                                     'arrival::curve::Curve::extrapolate', 'arrival::ArrivalBound::number_arrivals', 'arrival')
+    witness_instances(rep, ctx, ['ArrivalExtrapolatingCurveIsNotSend', 'ArrivalExtrapolatingCurveIsNotSync', 'CacheFieldIsPrivate'], 'C13')
+    fx = ctx.fixtures('dbg')
+    col = controls.Collector()
+    rules_models.check_cache(col, fx, 'src/lib.rs', 'C13')
+    rules_models.check_append_only(col, fx, 'cell', 'src/lib.rs', set())
+    rep.fixture('CACHE-SCOPE:bad_reentrant', bool(col.fired_for('bad_reentrant', 'CACHE-SCOPE')))
+    rep.fixture('CACHE-SCOPE:good_sequential:silent', not col.fired_for('good_sequential', 'CACHE-SCOPE'))
+    rep.fixture('CACHE-ESCAPE:bad_escape', bool(col.fired_for('bad_escape', 'CACHE-ESCAPE')))
+    rep.floor('reference summaries compared', n, 15)
+    rep.floor('RefCell borrow sites', c, 3)
+    rep.floor('writers of the cache', a, 4)
+    return ('Static analysis of arrival/curve.rs: RefCell discipline of the shared extrapolation cache (guard scopes, escape, '
+            'transitive may-borrow effects; with compile-fail witnesses that the type is !Send, !Sync and its cache field '
+            'private, re-entrancy is the only way to a borrow failure and it is excluded), append-only writers, '
+            'extrapolate-before-lookup with horizon query+1, and reference summaries of the extrapolation routines '
+            '(combiner max over k in 0..=n/2). Does NOT decide conservativeness against event sequences.')
+
+
+def c14(ctx, rep):
+    crate = ctx.crate('dbg')
+    for a in MODEL_ASSUMPTIONS:
+        rep.assume(a)
+    model_rules(rep)
+    rep.rule('TRACE', 'wcet::Curve::from_trace: push, evict, then scan the whole window newest-first')
+    rep.rule('CACHE-*', 'RefCell discipline, append-only writers and extrapolate-before-lookup for wcet::ExtrapolatingCurve')
+    n = rules_models.check_ref(rep, crate, 'C14')
+    t = rules_models.check_trace(rep, crate, 'wcet::curve::Curve::from_trace', window_push_first=True)
+    c = rules_models.check_cache(rep, crate, 'src/wcet/curve.rs', 'C14')
+    a = rules_models.check_append_only(rep, crate, 'wcet_of_n_jobs', 'src/wcet/curve.rs', {'extrapolate'})
+    o = rules_models.check_extrapolate_before_lookup(rep, crate, '<wcet::curve::ExtrapolatingCurve as wcet::JobCostModel>::cost_of_jobs',
+                                                     'wcet::curve::Curve::extrapolate', 'wcet::JobCostModel::cost_of_jobs', 'wcet')
+    witness_instances(rep, ctx, ['WcetExtrapolatingCurveIsNotSend', 'WcetExtrapolatingCurveIsNotSync'], 'C14')
+    rep.floor('reference summaries compared', n, 28)
+    rep.floor('RefCell borrow sites', c, 2)
+    rep.floor('writers of the cache', a, 1)
+    return ('Static analysis of the job-cost models: reference summaries of every cost_of_jobs / job_cost_iter / least_wcet '
+            '(sum of the first n items, successive differences, min over the first n increments with the loop range '
+            '1..min(len, n)), the trace-extraction loop (newest-first scan of the whole window), the sub-additive '
+            'extrapolation (min over k in 0..=n/2) and the RefCell discipline / append-only / extrapolate(n+1)-before-lookup '
+            'clauses of the caching variant, with compile-fail witnesses for !Send/!Sync. Does NOT decide domination of '
+            'traces beyond the prefix.')
+
+
+def c16(ctx, rep):
+    crate = ctx.crate('dbg')
+    for a in MODEL_ASSUMPTIONS:
+        rep.assume(a)
+    model_rules(rep)
+    rep.rule('DELEG', 'Aggregate/Slice: sum / min(default 0) over every component of the same method with the arguments passed through')
+    n = rules_models.check_ref(rep, crate, 'C16')
+    d = rules_models.check_deleg(rep, crate, 'demand')
+    rep.floor('reference summaries compared', n, 36)
+    rep.floor('composite request-bound methods', d, 6)
+    return ('Static analysis of demand/: RBF composes cost_of_jobs(number_arrivals(delta)), job_cost_iter takes exactly '
+            'number_arrivals(delta) items; Aggregate and Slice delegate by sum / min / k-merge over every component; the default '
+            'service_needed_by_n_jobs is sorted -> rev -> take(max_jobs) -> sum; the auto_impl forwards call the same method '
+            'with the same arguments -- each decided as identity of canonical terms with reviewed references plus the DELEG '
+            'form. Does NOT decide numeric relations between the methods for given models.')
+
+
 PROPS = {
+    'C10': c10, 'C11': c11, 'C12': c12, 'C13': c13, 'C14': c14, 'C16': c16,
     'C20': c20,
     'C04': ros2_prop(['ecrts19'], 'safe', 'C04', 40),
     'C05': ros2_prop(['rr', 'bw'], 'safe', 'C05', 25),
